@@ -82,12 +82,14 @@ class Ctx:
             ok = not ok
         self.obs.append(Ob("bool", label, ok=ok, detail=detail, sig=sig))
 
-    def unsat(self, label, formula, decode, sig=None):
+    def unsat(self, label, formula, decode, sig=None, vars=()):
         """A formula over solver variables (e.g. a symbolic string) that must be unsatisfiable;
-        `decode(model)` turns a model into concrete values for the replay run."""
+        `decode(model)` turns a model into concrete values for the replay run; `vars` are blocked
+        model by model so that several distinct counterexamples can be collected."""
         o = Ob("formula", label, sig=sig)
         o.impl = formula
         o.ref = decode
+        o.hyps = list(vars)
         self.obs.append(o)
 
     def oob(self, label, why=""):
@@ -419,25 +421,35 @@ def run_case(prop, name, params, budget=None):
                 s_ = z3.Solver()
                 s_.set("timeout", budget.get("formula_ms", 120000))
                 s_.add(o.impl)
-                t = time.time()
-                r = s_.check()
-                tz += time.time() - t
-                nq += 1
-                if len(res["samples"]) < 3:
-                    res["samples"].append(dict(label=o.label, verdict=str(r), seconds=round(time.time() - t, 2)))
-                if r == z3.unsat:
-                    verdict = "discharged"
-                elif r == z3.unknown:
-                    verdict = "unknown"
-                else:
-                    cand = o.ref(s_.model())
+                found = 0
+                while True:
+                    t = time.time()
+                    r = s_.check()
+                    tz += time.time() - t
+                    nq += 1
+                    if len(res["samples"]) < 3:
+                        res["samples"].append(dict(label=o.label, verdict=str(r), seconds=round(time.time() - t, 2)))
+                    if r == z3.unsat:
+                        verdict = "discharged" if found == 0 else "violated"
+                        break
+                    if r == z3.unknown:
+                        verdict = "unknown" if found == 0 else "violated"
+                        break
+                    mdl = s_.model()
+                    cand = o.ref(mdl)
                     cobs = run_concrete(fn, domain, params, cand, [])
                     bad = [(co, why) for co, why in concrete_failures(cobs) if co.label == o.label]
+                    found += 1
                     if bad:
                         res["violations"].append(dict(label=o.label, sig=bad[0][0].sig or o.sig, kind="formula", reproduced=True, why=bad[0][1], values=cand, choices=[]))
                     else:
                         res["violations"].append(dict(label=o.label, sig=o.sig, kind="formula", reproduced=False, values=cand, choices=[]))
                         res["notes"].append(f"solver model for {o.label} did not reproduce: {cand}")
+                    if not o.hyps or found >= 4:
+                        verdict = "violated"
+                        break
+                    s_.add(z3.Or(*[v != mdl.eval(v, model_completion=True) for v in o.hyps]))
+                if verdict == "violated":
                     continue
             elif o.kind == "bool":
                 res["bool_checks"] += 1
